@@ -231,6 +231,7 @@ type c16Harness struct {
 	faults map[int]int // index -> 0: bad exit status only; d>=1: Felix's write fails d-1 restore lines after the process died
 
 	nFaults, nNatural, nSwaps, nCmds int
+	filters                          int
 	leakShape, delayed, flagShape    bool
 }
 
@@ -527,6 +528,27 @@ func (r *c16run) queueResync() {
 	r.txt = append(r.txt, "QueueResync")
 }
 
+// SetFilter: ids == nil means no filter
+func (r *c16run) setFilter(ids []int, none bool) {
+	if none {
+		r.s.SetFilter(nil)
+		r.ops = append(r.ops, "OSetFilter None")
+		r.txt = append(r.txt, "SetFilter(nil)")
+		return
+	}
+	names := set.New[string]()
+	var cq []string
+	sort.Ints(ids)
+	for _, id := range ids {
+		names.Add(c16main(id))
+		cq = append(cq, fmt.Sprintf("(0,%d)", id))
+	}
+	r.s.SetFilter(names)
+	r.h.filters++
+	r.ops = append(r.ops, "OSetFilter (Some ["+strings.Join(cq, ";")+"])")
+	r.txt = append(r.txt, fmt.Sprintf("SetFilter(%v)", ids))
+}
+
 // somebody else changes the kernel
 func (r *c16run) external(f func(dp *mockDataplane)) {
 	f(r.h.dp)
@@ -754,6 +776,64 @@ func c16genCase(g *c16rng, stream string) (*c16run, []string) {
 				r.addOrReplace(id, m, c16genVals(g, 4))
 			}
 		}
+		if stream == "filter" && round > 0 && g.chance(75) {
+			// a set drops out of the filter and comes back while it is still in the kernel, its members changing meanwhile
+			var have []int
+			for id := 0; id < nIDs; id++ {
+				if _, ok := r.want[id]; ok {
+					have = append(have, id)
+				}
+			}
+			if len(have) > 0 {
+				out := map[int]bool{have[g.intn(len(have))]: true}
+				if g.chance(50) {
+					out[have[g.intn(len(have))]] = true
+				}
+				var keep []int
+				for _, id := range have {
+					if !out[id] {
+						keep = append(keep, id)
+					}
+				}
+				r.setFilter(keep, false)
+				if g.chance(50) {
+					r.apply(0, nil) // at most one of the dropped sets is deleted (rate limit)
+				}
+				for id := range have {
+					if out[have[id]] && g.chance(80) {
+						r.changeMembers(g.chance(60), have[id], c16genVals(g, 3))
+					}
+				}
+				if g.chance(30) {
+					r.setFilter(nil, true)
+				} else {
+					r.setFilter(have, false)
+				}
+			}
+		} else if stream == "filter" || g.chance(8) {
+			// raw-only / BPF mode: only some sets are needed; sets drop out and come back while still in the kernel
+			k := 1 + g.intn(2)
+			for j := 0; j < k; j++ {
+				if g.chance(15) {
+					r.setFilter(nil, true)
+				} else {
+					var ids []int
+					for id := 0; id < nIDs; id++ {
+						if g.chance(50) {
+							ids = append(ids, id)
+						}
+					}
+					r.setFilter(ids, false)
+				}
+				if j+1 < k {
+					// something changes while the filter is in this position
+					id := g.intn(nIDs)
+					if _, have := r.want[id]; have {
+						r.changeMembers(g.chance(50), id, c16genVals(g, 3))
+					}
+				}
+			}
+		}
 		if stream == "drift" && round > 0 && g.chance(60) {
 			r.external(func(dp *mockDataplane) {
 				var names []string
@@ -834,6 +914,9 @@ func c16genCase(g *c16rng, stream string) (*c16run, []string) {
 	if h.flagShape {
 		tags = append(tags, "delete-failed-shape")
 	}
+	if h.filters > 0 {
+		tags = append(tags, "setfilter")
+	}
 	return r, tags
 }
 
@@ -885,7 +968,7 @@ func TestVerifC16(t *testing.T) {
 	defer f.Close()
 	enc := json.NewEncoder(f)
 	g := &c16rng{s: seed*0x9e3779b97f4a7c15 + 16}
-	streams := []string{"random", "batch", "faulty", "batch", "drift", "clean-start", "faulty", "batch"}
+	streams := []string{"random", "batch", "filter", "faulty", "filter", "drift", "batch", "filter", "clean-start", "faulty", "batch", "filter"}
 	for i := 0; i < n; i++ {
 		stream := streams[i%len(streams)]
 		r, tags := c16genCase(g, stream)
